@@ -309,4 +309,113 @@ theorem lenInv : ∀ fuel, LenInv fuel
           split <;> grind
         · grind
 
+/-! ## `insInv`: an empty block is transparent -/
+
+/-- the stack with an empty block inserted below the first `n` blocks -/
+def ins (n : Nat) (bs : List Block) : List Block := bs.take n ++ Block.empty :: bs.drop n
+def St.ins (s : St) (n : Nat) : St := { s with blocks := Scope.ins n s.blocks }
+
+@[simp] theorem ins_zero (bs : List Block) : ins 0 bs = Block.empty :: bs := by simp [ins]
+@[simp] theorem ins_succ_cons (n : Nat) (b : Block) (bs : List Block) : ins (n + 1) (b :: bs) = b :: ins n bs := by
+  simp [ins]
+@[simp] theorem ins_nil (n : Nat) : ins n [] = [Block.empty] := by simp [ins]
+@[simp] theorem aget_empty_vars (x : Nat) : aget x Block.empty.vars = none := rfl
+@[simp] theorem aget_empty_funs (x : Nat) : aget x Block.empty.funs = none := rfl
+
+theorem ins_ne_nil (n : Nat) (bs : List Block) : ins n bs ≠ [] := by simp [ins]
+
+theorem ins_tail (n : Nat) : ∀ bs : List Block, bs ≠ [] → (ins (n + 1) bs).tail = ins n bs.tail
+  | [], h => absurd rfl h
+  | b :: bs, _ => by simp
+
+theorem getVar_ins (x : Nat) : ∀ n bs, getVar x (ins n bs) = getVar x bs
+  | 0, bs => by simp [getVar]
+  | n + 1, [] => by simp [getVar]
+  | n + 1, b :: bs => by simp [getVar, getVar_ins x n bs]
+
+theorem getFn_ins (x : Nat) : ∀ n bs, getFn x (ins n bs) = getFn x bs
+  | 0, bs => by simp [getFn]
+  | n + 1, [] => by simp [getFn]
+  | n + 1, b :: bs => by simp [getFn, getFn_ins x n bs]
+
+theorem setVar_ins (x : Nat) (v : SVal) : ∀ n bs, setVar x v (ins n bs) = (setVar x v bs).map (ins n)
+  | 0, bs => by cases h : setVar x v bs <;> simp [setVar, h]
+  | n + 1, [] => by simp [setVar]
+  | n + 1, b :: bs => by
+    simp only [ins_succ_cons, setVar, setVar_ins x v n bs]
+    cases aget x b.vars <;> simp
+    cases setVar x v bs <;> simp
+
+theorem disposeVar_ins (x : Nat) : ∀ n bs, disposeVar x (ins n bs) = (disposeVar x bs).map (ins n)
+  | 0, bs => by cases h : disposeVar x bs <;> simp [disposeVar, h]
+  | n + 1, [] => by simp [disposeVar]
+  | n + 1, b :: bs => by
+    simp only [ins_succ_cons, disposeVar, disposeVar_ins x n bs]
+    cases aget x b.vars <;> simp
+    cases disposeVar x bs <;> simp
+
+theorem disposeFn_ins (x : Nat) : ∀ n bs, disposeFn x (ins n bs) = (disposeFn x bs).map (ins n)
+  | 0, bs => by cases h : disposeFn x bs <;> simp [disposeFn, h]
+  | n + 1, [] => by simp [disposeFn]
+  | n + 1, b :: bs => by
+    simp only [ins_succ_cons, disposeFn, disposeFn_ins x n bs]
+    cases aget x b.funs <;> simp
+    cases disposeFn x bs <;> simp
+
+theorem declareVar_ins (x : Nat) (v : SVal) (n : Nat) : ∀ bs, bs ≠ [] →
+    declareVar x v (ins (n + 1) bs) = (declareVar x v bs).map (ins (n + 1))
+  | [], h => absurd rfl h
+  | b :: bs, _ => by
+    simp only [ins_succ_cons, declareVar]
+    cases aget x b.vars <;> simp
+
+theorem declareFn_ins (f : Nat) (d : FDecl) (n : Nat) : ∀ bs, bs ≠ [] →
+    declareFn f d (ins (n + 1) bs) = (declareFn f d bs).map (ins (n + 1))
+  | [], h => absurd rfl h
+  | b :: bs, _ => by
+    simp only [ins_succ_cons, declareFn]
+    cases aget f b.funs <;> simp [Except.map]
+    split <;> rfl
+
+@[simp] theorem St.ins_blocks (s : St) (n : Nat) : (s.ins n).blocks = Scope.ins n s.blocks := rfl
+@[simp] theorem St.ins_out (s : St) (n : Nat) : (s.ins n).out = s.out := rfl
+
+theorem St.push_ins (s : St) (n : Nat) : (s.ins n).push = s.push.ins (n + 1) := by
+  simp [St.push, St.ins]
+
+theorem St.ins_pop (s : St) (n : Nat) (h : s.blocks ≠ []) : (s.ins (n + 1)).pop = s.pop.ins n := by
+  simp [St.pop, St.ins, ins_tail n s.blocks h]
+
+structure InsInv (fuel : Nat) : Prop where
+  eval : ∀ n e st, evalS fuel e (st.ins n) = ((evalS fuel e st).1, (evalS fuel e st).2.ins n)
+  args : ∀ n es st, evalArgsS fuel es (st.ins n) = ((evalArgsS fuel es st).1, (evalArgsS fuel es st).2.ins n)
+  call : ∀ n d as st, callS fuel d as (st.ins n) = ((callS fuel d as st).1, (callS fuel d as st).2.ins n)
+  bind : ∀ n ps as st, st.blocks ≠ [] →
+    bindParamsS fuel ps as (st.ins (n + 1)) = ((bindParamsS fuel ps as st).1, (bindParamsS fuel ps as st).2.ins (n + 1))
+  stmt : ∀ n s st, st.blocks ≠ [] →
+    stmtS fuel s (st.ins (n + 1)) = ((stmtS fuel s st).1, (stmtS fuel s st).2.ins (n + 1))
+  block : ∀ n ss st, st.blocks ≠ [] →
+    blockS fuel ss (st.ins (n + 1)) = ((blockS fuel ss st).1, (blockS fuel ss st).2.ins (n + 1))
+  ifs : ∀ n br els st, st.blocks ≠ [] →
+    ifS fuel br els (st.ins (n + 1)) = ((ifS fuel br els st).1, (ifS fuel br els st).2.ins (n + 1))
+  whl : ∀ n c body st, st.blocks ≠ [] →
+    whileS fuel c body (st.ins (n + 1)) = ((whileS fuel c body st).1, (whileS fuel c body st).2.ins (n + 1))
+
+theorem ne_nil_of_length_eq {α} {l l' : List α} (h : l'.length = l.length) (hl : l ≠ []) : l' ≠ [] := by
+  cases l' with
+  | nil => cases l with
+    | nil => exact absurd rfl hl
+    | cons _ _ => simp at h
+  | cons _ _ => simp
+
+/-- entering and leaving a block commutes with the insertion (one level deeper inside) -/
+theorem inBlock_ins {α} (f : St → α × St) (st : St) (n : Nat)
+    (hlen : (f st.push).2.blocks.length = st.push.blocks.length)
+    (h : f (st.push.ins (n + 1)) = ((f st.push).1, (f st.push).2.ins (n + 1))) :
+    inBlock f (st.ins n) = ((inBlock f st).1, (inBlock f st).2.ins n) := by
+  unfold inBlock
+  rw [St.push_ins, h]
+  have hne : (f st.push).2.blocks ≠ [] := ne_nil_of_length_eq hlen (by simp [St.push])
+  simp [St.ins_pop _ n hne]
+
 end Csvq.Scope
